@@ -340,7 +340,21 @@ def wmodel(node, vals, keys=None):
 TOL_OPS = MATH | {'scan'}
 
 
+def _identity_equal(c):
+    """does the canonical value contain an object whose equality is identity (no __eq__: AccObj, Plain, unknown objects)?  The
+    snapshots do not record identity - two records may be the same object delivered twice (e.g. through two tee_map branches) -
+    so an operator that COMPARES such items cannot be modelled from them."""
+    if isinstance(c, tuple):
+        if c and c[0] in ('o', 'obj'):
+            return True
+        return any(_identity_equal(e) for e in c)
+    return False
+
+
 def _cmp_life(node, path, inl, outl, ended, findings, mode):
+    if node['op'] in ('distinct', 'distinct_until_changed') and node.get('key') is None and \
+            any(_identity_equal(v) for _, _, v in inl.items):
+        return
     vals = [decanon(v) for _, _, v in inl.items]
     exp = model(node, vals, ended)
     if exp is None:
